@@ -7,7 +7,7 @@ use crate::core::{self, guard, par_fold, Stop};
 use crate::report::{Report, Samples, Violation};
 use crate::val::canon;
 use serde_json::json;
-use simplesl::variable::Variable;
+use simplesl::variable::{Type, Variable};
 use simplesl::{verif, Code, Interpreter};
 use std::collections::BTreeSet;
 
@@ -352,6 +352,15 @@ fn program(n: &Node) -> String {
     format!("f := (v: int | float | string | () | [int] | (int, int), p: bool) -> any {{ log := mut [int] []; inner := () -> int {{ {body} return 0 - 1; }}; r := inner(); return (r, *log) }}")
 }
 
+/// the same nesting with the scrutinee and the flag as constants bound inside (the folder then
+/// prunes branches, arms and loops): same exits, same log
+fn program_constant(n: &Node, v: &str, p: bool) -> String {
+    let mut body = String::new();
+    let mut id = 0;
+    print(n, &mut id, &mut body);
+    format!("log := mut [int] []; v := {v}; p := {p}; inner := () -> int {{ {body} return 0 - 1; }}; r := inner(); (r, *log)")
+}
+
 fn scrutinees() -> Vec<Scrut> {
     vec![Scrut::I(1), Scrut::I(2), Scrut::I(3), Scrut::I(9), Scrut::F, Scrut::S, Scrut::Unit, Scrut::Arr, Scrut::Tup]
 }
@@ -540,6 +549,106 @@ fn value_arm_grid() -> (u64, Vec<Violation>) {
     (n, out)
 }
 
+/// Arm order: `match` runs the first arm, top to bottom, that accepts the scrutinee, whatever the
+/// kinds of the arms and wherever the catch-all arm is written. Every sequence of one to three
+/// arms over a small arm alphabet (value arms, type arms of three widths, catch-all), every
+/// scrutinee, with the scrutinee a run-time value of static type any and a constant.
+fn arm_order_grid() -> (u64, u64, Vec<Violation>) {
+    use crate::props::c19::content_eq;
+    use std::str::FromStr;
+    // (arm text, value it equals, type it tests)
+    const ARMS: &[(&str, Option<&str>, Option<&str>)] = &[
+        ("(1)", Some("1"), None),
+        ("(2)", Some("2"), None),
+        ("q: int", None, Some("int")),
+        ("q: int|string", None, Some("int|string")),
+        ("q: any", None, Some("any")),
+        ("", None, None),
+    ];
+    const SCRUT: &[&str] = &["1", "2", "3", "\"s\"", "1.5", "true"];
+    let interp = Interpreter::with_stdlib();
+    let make = |src: &str| -> Variable { Code::parse(&interp, src).expect("C12 value recipe").exec().expect("C12 value recipe") };
+    let scrut: Vec<Variable> = SCRUT.iter().map(|s| make(s)).collect();
+    let accepts = |arm: usize, v: &Variable| -> bool {
+        match ARMS[arm] {
+            (_, Some(val), _) => content_eq(v, &make(val)),
+            (_, _, Some(t)) => simplesl::variable::Typed::as_type(v).matches(&Type::from_str(t).expect("type text")),
+            _ => true,
+        }
+    };
+    let mut seqs: Vec<Vec<usize>> = Vec::new();
+    for a in 0..ARMS.len() {
+        seqs.push(vec![a]);
+        for b in 0..ARMS.len() {
+            seqs.push(vec![a, b]);
+            for c in 0..ARMS.len() {
+                seqs.push(vec![a, b, c]);
+            }
+        }
+    }
+    let mut out = Vec::new();
+    let (mut n, mut rejected) = (0u64, 0u64);
+    for seq in &seqs {
+        let arms: String = seq.iter().enumerate().map(|(k, a)| format!("{} => {}, ", ARMS[*a].0, k + 1)).collect();
+        let always_covered = seq.iter().any(|a| *a >= 4);
+        // run-time scrutinee
+        let text = format!("f := (v: any) -> any {{ return match v {{ {arms}}} }}");
+        let f = match guard(|| Code::parse(&interp, &text).map(|c| c.exec())) {
+            Ok(Ok(Ok(Variable::Function(f)))) => Some(f),
+            Ok(Err(_)) if !always_covered => {
+                rejected += 1;
+                None
+            }
+            _ => {
+                out.push(Violation { sig: format!("C12|arm-order|program-fails|{arms}"), detail: json!({"kind": "program", "stdlib": true, "text": text}) });
+                None
+            }
+        };
+        for (is, s) in SCRUT.iter().enumerate() {
+            let want = seq.iter().position(|a| accepts(*a, &scrut[is])).map(|k| (k + 1).to_string());
+            if let (Some(f), Some(want)) = (&f, &want) {
+                n += 1;
+                let got = match guard(|| f.clone().create_call(vec![make(s)]).map(|c| c.exec())) {
+                    Ok(Ok(Ok(r))) => canon(&r),
+                    Ok(Ok(Err(e))) => format!("error:{}", core::exec_error_kind(&e)),
+                    Ok(Err(e)) => format!("host-rejected:{}", core::error_kind(&e)),
+                    Err(Stop::Panic(p)) => format!("PANIC {} @{}", p.short_msg(), p.file()),
+                    Err(Stop::Exhausted) => continue,
+                };
+                if &got != want {
+                    out.push(Violation {
+                        sig: format!("C12|arm-order|run-time-scrutinee|arms={arms}|scrutinee={s}|expected={want}"),
+                        detail: json!({"kind": "host_call", "program": text, "args": [s], "expected": want, "observed": got}),
+                    });
+                }
+            }
+            // constant scrutinee: the arm is chosen (possibly by the folder) among arms the
+            // checker keeps for the static type of the literal
+            let text = format!("match {s} {{ {arms}}}");
+            n += 1;
+            let got = match guard(|| Code::parse(&interp, &text).map(|c| c.exec())) {
+                Ok(Ok(Ok(r))) => canon(&r),
+                Ok(Ok(Err(e))) => format!("error:{}", core::exec_error_kind(&e)),
+                // coverage is judged on types: value arms alone never cover
+                Ok(Err(_)) if !always_covered => {
+                    rejected += 1;
+                    continue;
+                }
+                Ok(Err(e)) => format!("rejected:{}", core::error_kind(&e)),
+                Err(Stop::Panic(p)) => format!("PANIC {} @{}", p.short_msg(), p.file()),
+                Err(Stop::Exhausted) => continue,
+            };
+            if Some(&got) != want.as_ref() {
+                out.push(Violation {
+                    sig: format!("C12|arm-order|constant-scrutinee|arms={arms}|scrutinee={s}|expected={}", want.clone().unwrap_or("rejected".into())),
+                    detail: json!({"kind": "program", "stdlib": true, "text": text, "expected": want, "observed": got}),
+                });
+            }
+        }
+    }
+    (n, rejected, out)
+}
+
 /// A failing operation on values captured by a function value fails when it is reached and
 /// only then: creating the function value evaluates nothing of its body (so a branch that is not
 /// chosen, or a function that is never called, cannot make the program fail), and reaching the
@@ -717,6 +826,7 @@ struct Acc {
     programs: u64,
     runs: u64,
     rejected: u64,
+    rejected_constant_twins: u64,
     logs: BTreeSet<String>,
     violations: Vec<Violation>,
 }
@@ -812,6 +922,27 @@ pub fn run(tier: &str) -> i32 {
                     if acc.logs.len() < 2000 {
                         acc.logs.insert(got.clone());
                     }
+                    // constant twin: a program of its own (the constants may make the checker reject it,
+                    // e.g. a match it can now see through; then there is nothing to compare)
+                    let ctext = program_constant(n, &v.lit(), p);
+                    acc.runs += 1;
+                    let cgot = match guard(|| Code::parse(interp, &ctext).map(|c| c.exec())) {
+                        Ok(Ok(Ok(r))) => Some(canon(&r)),
+                        Ok(Ok(Err(e))) => Some(format!("error:{}", core::exec_error_kind(&e))),
+                        Ok(Err(_)) => None,
+                        Err(Stop::Panic(pn)) => Some(format!("PANIC {} @{}", pn.short_msg(), pn.file())),
+                        Err(Stop::Exhausted) => None,
+                    };
+                    if let Some(cgot) = cgot {
+                        if cgot != want {
+                            acc.violations.push(Violation {
+                                sig: format!("C12|wrong-branch-or-exit-with-constant-scrutinee|{}|v={}", shape(n), v.lit().replace('|', "/")),
+                                detail: json!({"kind": "program", "stdlib": true, "text": ctext, "expected": want, "observed": cgot}),
+                            });
+                        }
+                    } else {
+                        acc.rejected_constant_twins += 1;
+                    }
                     if got != want {
                         acc.violations.push(Violation {
                             sig: format!("C12|wrong-branch-or-exit|{}|v={}", shape(n), v.lit().replace('|', "/")),
@@ -828,6 +959,7 @@ pub fn run(tier: &str) -> i32 {
         acc.programs += a.programs;
         acc.runs += a.runs;
         acc.rejected += a.rejected;
+        acc.rejected_constant_twins += a.rejected_constant_twins;
         acc.logs.extend(a.logs);
         acc.violations.extend(a.violations);
     }
@@ -865,11 +997,13 @@ pub fn run(tier: &str) -> i32 {
     report.violations(dispatch.1);
     let value_arms = core::on_big_stack(value_arm_grid);
     report.violations(value_arms.1);
+    let arm_order = core::on_big_stack(arm_order_grid);
+    report.violations(arm_order.2);
     let unreached = core::on_big_stack(|| unreached_failures("C12"));
     report.violations(unreached.1);
     samples.push(|| json!({"program": program(&all[all.len() / 2]), "shape": shape(&all[all.len() / 2])}));
     samples.push(|| json!({"shape": shape(&all[all.len() - 1])}));
-    let Acc { programs, runs, rejected, logs, violations } = acc;
+    let Acc { programs, runs, rejected, rejected_constant_twins, logs, violations } = acc;
     report.violations(violations);
     let coverage = json!({
         "states": programs,
@@ -877,11 +1011,14 @@ pub fn run(tier: &str) -> i32 {
         "traces_validated_against_impl": runs,
         "programs": programs,
         "runs": runs,
+        "constant_twins_the_checker_rejected": rejected_constant_twins,
         "scrutinee_values": scr.len() * 2,
         "max_nesting_depth": max_depth,
         "generated_programs_not_accepted": rejected,
         "type_dispatch_cases": dispatch.0,
         "value_arm_cases": value_arms.0,
+        "arm_order_cases (every sequence of 1..3 arms over value / type / catch-all arms, 6 scrutinees, run-time and constant scrutinee)": arm_order.0,
+        "arm_order_programs_not_accepted (no arm covers)": arm_order.1,
         "unreached_failure_cases": unreached.0,
         "illegal_placements": ILLEGAL.len(),
         "legal_placements": LEGAL.len(),
